@@ -14,7 +14,7 @@ from __future__ import annotations
 import ast
 from typing import List, Set, Tuple
 
-from .core import Module, dotted, facts, origins, site, src, walk_local
+from .core import Module, dotted, facts, origins, site, src, walk_local, call_name
 
 
 def cache_sites(module: Module, fn: ast.FunctionDef) -> List[Tuple[ast.AST, ast.expr, str]]:
@@ -292,8 +292,36 @@ def check_cached_returns(ctx, rule: str, def_relpaths, use_relpaths) -> int:
                           f"`{fname}` ({drel}) is memoised (lru_cache) and returns a mutable container; its result is bound to `{tname}` and changed in place at line "
                           f"{getattr(muts[0], 'lineno', '?') if muts else '?'} (`{' '.join(src(muts[0]).split())[:60] if muts else ''}`): the cached object itself is modified, so the next call with the same "
                           "argument returns the modified container (e.g. parse_bnf(text) after ISLaSolver(text, ...) added a rule to its grammar)", "results of memoised functions are copied before they are modified")
+    # a SHALLOW copy of a memoised nested container (a grammar: dict of lists) still shares the inner lists with the cache
+    nested = {name for name, (_, _, fn_) in cached.items() if fn_.returns is not None and (
+        src(fn_.returns).replace("Optional[", "").strip('"').split("[")[0] in ("Grammar", "CanonicalGrammar") or _re_nested(src(fn_.returns)))}
+    for rel in use_relpaths:
+        m = ctx.repo.module(rel, rule)
+        for q, fn in m.functions():
+            if not isinstance(fn, ast.FunctionDef):
+                continue
+            for r in [x for x in walk_local(fn) if isinstance(x, ast.Return) and x.value is not None]:
+                v = r.value
+                shallow = None
+                if isinstance(v, ast.Call) and isinstance(v.func, ast.Name) and v.func.id in ("dict", "list", "OrderedDict") and len(v.args) == 1:
+                    shallow = v.args[0]
+                elif isinstance(v, ast.Call) and isinstance(v.func, ast.Attribute) and v.func.attr == "copy" and not v.args:
+                    shallow = v.func.value
+                elif isinstance(v, ast.Call) and call_name(v) == "copy.copy" and len(v.args) == 1:
+                    shallow = v.args[0]
+                if isinstance(shallow, ast.Call) and isinstance(shallow.func, ast.Name) and shallow.func.id in nested:
+                    n += 1
+                    ctx.viol(rule + "-shallow", f"{rel}:{q}", f"{' '.join(src(v).split())[:50]} shares inner containers with the cache", site(r),
+                             f"`{shallow.func.id}` is memoised and returns a nested mutable container ({src(cached[shallow.func.id][2].returns)}); `{' '.join(src(v).split())[:60]}` copies only the outer level, "
+                             "so the lists of alternatives handed to the caller ARE the cached ones: a caller that appends an alternative changes what every later call with the same text returns")
     ctx.inventory[f"{rule}_cached_mutable_functions"] = sorted(cached)
     return n
+
+
+def _re_nested(ann: str) -> bool:
+    import re as _re
+
+    return bool(_re.search(r"(Dict|dict|List|list)\[.*(List|list|Dict|dict|Set|set)\[", ann))
 
 
 def check_cached_grammar_projection(ctx, rule: str, relpaths) -> int:
